@@ -1061,7 +1061,7 @@ where
         match request {
             HelpRequest::All => C::list_commands(&mut writer)?,
             HelpRequest::Command(command) => {
-                match C::command_help(&mut |_p: &mut Writer<'_, W, E>| -> (r: Result<(), E>) ensures r is Ok { Ok(()) }, command.clone(), &mut writer) {
+                match C::command_help(&mut |_p: &mut Writer<'_, W, E>| -> (r: Result<(), E>) ensures r is Ok, *final(_p) == *old(_p) { Ok(()) }, command.clone(), &mut writer) {
                     Err(HelpError::UnknownCommand) => {
 //@ let ghost out_u = writer.out();
                         writer.write_str("error: ")?;
